@@ -204,6 +204,23 @@ impl HeaderPrefix {
     }
 }
 
+#[cfg(hyperium_h3_verif)]
+impl HeaderPrefix {
+    /// Raw fields `(encoded_insert_count, sign_negative, delta_base)` (verification harnesses only)
+    pub fn verif_parts(&self) -> (usize, bool, usize) {
+        (self.encoded_insert_count, self.sign_negative, self.delta_base)
+    }
+
+    /// Build a prefix from raw fields (verification harnesses only)
+    pub fn verif_from_parts(encoded_insert_count: usize, sign_negative: bool, delta_base: usize) -> Self {
+        Self {
+            encoded_insert_count,
+            sign_negative,
+            delta_base,
+        }
+    }
+}
+
 #[derive(Debug, PartialEq)]
 pub enum Indexed {
     Static(usize),
